@@ -9,6 +9,7 @@ mod p_get;
 mod p_hist;
 mod p_num;
 mod p_ser;
+mod p_simd;
 mod p_typed;
 mod types;
 mod sval;
@@ -34,6 +35,7 @@ fn main() {
                 "C02" => p_c02::run(&mut out, tier, seed),
                 "C09" => p_c09::run(&mut out, tier, seed),
                 "C20" => p_c20::run(&mut out, tier, seed),
+                "C17" => p_simd::run(&mut out, tier, seed),
                 "C04" => p_typed::run_c04(&mut out, tier, seed),
                 "C19" => p_typed::run_c19(&mut out, tier, seed),
                 "C15" => p_hist::run_c15(&mut out, tier, seed),
